@@ -183,10 +183,20 @@ func runImplFSched(s FSchedCase) (res fschedResult) {
 	loaded := map[int]uint32{}
 	// every max-in-flight limit ever configured under a name: the limit a request loads must be one of its own name's
 	limitsOf := map[string]map[uint32]bool{}
+	outOfDomain := map[string]bool{} // a negative max was configured for the name: the property says nothing about it
 	noteLoad := func(k, t int, mx uint32) {
 		loaded[t] = mx
-		if n := s.nameOf(t); !limitsOf[n][mx] && res.viol == "" {
-			res.viol = fmt.Sprintf("event %d: thread %d asked for schema %q and is limited by %d, a limit never configured for that schema", k, t, n, mx)
+		// one-sided: a limit larger than any ever configured for the name lets more in than the schema allows; a
+		// smaller one (a stricter implementation, a clamp) is not against the property
+		n := s.nameOf(t)
+		var top uint32
+		for l := range limitsOf[n] {
+			if l > top {
+				top = l
+			}
+		}
+		if mx > top && !outOfDomain[n] && res.viol == "" {
+			res.viol = fmt.Sprintf("event %d: thread %d asked for schema %q and is limited by %d, more than any limit ever configured for that schema (at most %d)", k, t, n, mx, top)
 			res.foreign = true
 		}
 	}
@@ -229,7 +239,10 @@ func runImplFSched(s FSchedCase) (res fschedResult) {
 			var spec proxyv1alpha1.FlowControl
 			for _, sc := range *ev.Sync {
 				spec.Schemas = append(spec.Schemas, sc.real())
-				if sc.Mi != nil {
+				if sc.Mi != nil && *sc.Mi < 0 {
+					outOfDomain[rig.UnHex(sc.Name)] = true
+				}
+				if sc.Mi != nil && *sc.Mi >= 0 {
 					n := rig.UnHex(sc.Name)
 					if limitsOf[n] == nil {
 						limitsOf[n] = map[uint32]bool{}
